@@ -3,91 +3,12 @@ package main
 // Rules of C08 added after the rounds of independently authored breaking changes (DESIGN 11.6, 11.7).
 
 import (
+	"go/types"
 	"sort"
 	"strings"
 
 	"golang.org/x/tools/go/ssa"
 )
-
-// headerDeps: request-header keys the value depends on, following repo functions that take the request.
-func headerDeps(c *Ctx, v ssa.Value, depth int) map[string]bool {
-	out := map[string]bool{}
-	seen := map[ssa.Value]bool{}
-	var walk func(x ssa.Value, d int)
-	walk = func(x ssa.Value, d int) {
-		if x == nil || seen[x] || d > 10 {
-			return
-		}
-		seen[x] = true
-		switch y := x.(type) {
-		case *ssa.Call:
-			n := calleeName(&y.Call)
-			if (n == "(net/http.Header).Get" || n == "(net/http.Header).Values") && isRequestHeader(y.Call.Args[0]) {
-				if k, ok := constString(y.Call.Args[1]); ok {
-					out[k] = true
-				} else {
-					out["<computed>"] = true
-				}
-				return
-			}
-			if sc := y.Call.StaticCallee(); sc != nil && isRepoFn(sc) && depth < 3 {
-				// results of the callee
-				eachInstr(sc, func(i ssa.Instruction) {
-					if r, ok := i.(*ssa.Return); ok {
-						for _, res := range r.Results {
-							for k := range headerDeps(c, res, depth+1) {
-								out[k] = true
-							}
-						}
-						// and the conditions the return is control-dependent on
-						for _, ft := range factsAt(r.Block()) {
-							for k := range headerDeps(c, ft.Cond, depth+1) {
-								out[k] = true
-							}
-						}
-					}
-				})
-				return
-			}
-			if isTransparent(n) {
-				for _, a := range y.Call.Args {
-					walk(a, d+1)
-				}
-			}
-		case *ssa.Lookup:
-			if isRequestHeader(y.X) {
-				if k, ok := constString(y.Index); ok {
-					out[k] = true
-				}
-				return
-			}
-			walk(y.X, d+1)
-		case *ssa.Phi:
-			for _, e := range y.Edges {
-				walk(e, d+1)
-			}
-			// control dependence of the merge
-			for _, p := range y.Block().Preds {
-				for _, ft := range factsAt(p) {
-					walk(ft.Cond, d+1)
-				}
-			}
-		case *ssa.BinOp:
-			walk(y.X, d+1)
-			walk(y.Y, d+1)
-		case *ssa.UnOp:
-			walk(y.X, d+1)
-		case *ssa.Extract:
-			walk(y.Tuple, d+1)
-		case *ssa.Slice:
-			walk(y.X, d+1)
-		case *ssa.Convert:
-			walk(y.X, d+1)
-		}
-	}
-	walk(v, 0)
-	return out
-}
 
 func depsStr(m map[string]bool) string {
 	var k []string
@@ -98,52 +19,136 @@ func depsStr(m map[string]bool) string {
 	return strings.Join(k, ",")
 }
 
-func runC08X3(c *Ctx) {
-	add := c.fn("proxy", "addHeaders")
-	serve := c.method("proxy", "HTTPProxy", "ServeHTTP")
-	if add == nil || serve == nil {
-		return
-	}
-	// guard of the X-Forwarded-For write
-	var xffDeps map[string]bool
-	eachInstr(add, func(i ssa.Instruction) {
-		k, cc, ok := headerCall(i, "Set")
-		if !ok || k != "X-Forwarded-For" || !isRequestHeader(cc.Args[0]) {
-			return
+// c08tunnelSites: where ServeHTTP's region chooses the raw websocket tunnel. The tunnel is found by role - code of
+// package proxy that hijacks the client connection (http.Hijacker.Hijack; the methods that merely implement Hijacker by
+// forwarding are not tunnels) - and a site is any instruction of the region that calls, makes a closure of, takes the
+// value of, or instantiates the type of, a function from which such code is reached.
+func c08tunnelSites(c *Ctx, reg []*ssa.Function) []ssa.Instruction {
+	sp := c.spkg("proxy")
+	memo := map[*ssa.Function]bool{}
+	var hij func(g *ssa.Function) bool
+	var typeHij func(t types.Type) bool
+	typeMemo := map[*types.Named]bool{}
+	instHij := func(i ssa.Instruction) bool {
+		switch x := i.(type) {
+		case *ssa.Alloc:
+			return typeHij(x.Type())
+		case *ssa.MakeInterface:
+			return typeHij(x.X.Type())
 		}
-		xffDeps = map[string]bool{}
-		for _, ft := range factsAt(i.Block()) {
-			for h := range headerDeps(c, ft.Cond, 0) {
-				xffDeps[h] = true
+		return false
+	}
+	// hij: code reached from g (static calls, closures, function values, handler types it instantiates) hijacks the connection
+	hij = func(g *ssa.Function) bool {
+		if g == nil || !c08family(c, g) {
+			return false
+		}
+		if v, ok := memo[g]; ok {
+			return v
+		}
+		memo[g] = false
+		for _, f := range c08region(c, 4, g) {
+			if f.Name() != "Hijack" && fnCalls(f, "(net/http.Hijacker).Hijack") {
+				memo[g] = true
+				break
+			}
+			found := false
+			eachInstr(f, func(i ssa.Instruction) {
+				if !found && instHij(i) {
+					found = true
+				}
+			})
+			if found {
+				memo[g] = true
+				break
 			}
 		}
-	})
-	// tunnel decision: the fact guarding the websocket handler construction
-	var tunDeps map[string]bool
-	eachInstr(serve, func(i ssa.Instruction) {
-		cc := callCommon(i)
-		if cc == nil || cc.StaticCallee() == nil || cc.StaticCallee().Name() != "newWSHandler" {
-			return
+		return memo[g]
+	}
+	typeHij = func(t types.Type) bool {
+		for {
+			p, ok := t.(*types.Pointer)
+			if !ok {
+				break
+			}
+			t = p.Elem()
 		}
+		n, ok := types.Unalias(t).(*types.Named)
+		if !ok || n.Obj().Pkg() == nil || sp == nil || !(n.Obj().Pkg() == sp.Pkg || strings.HasPrefix(n.Obj().Pkg().Path(), sp.Pkg.Path()+"/")) {
+			return false
+		}
+		if v, ok := typeMemo[n]; ok {
+			return v
+		}
+		typeMemo[n] = false
+		ms := c.Prog.MethodSets.MethodSet(types.NewPointer(n))
+		for k := 0; k < ms.Len(); k++ {
+			if ms.At(k).Obj().Name() == "Hijack" {
+				continue
+			}
+			if f := c.Prog.MethodValue(ms.At(k)); f != nil && f.Synthetic == "" && hij(f) {
+				typeMemo[n] = true
+				break
+			}
+		}
+		return typeMemo[n]
+	}
+	var out []ssa.Instruction
+	eachInstrOf(reg, func(f *ssa.Function, i ssa.Instruction) {
+		hit := false
+		for _, op := range i.Operands(nil) {
+			if op == nil || *op == nil {
+				continue
+			}
+			var g *ssa.Function
+			switch x := (*op).(type) {
+			case *ssa.Function:
+				g = unwrap(x)
+			case *ssa.MakeClosure:
+				if fn, ok := x.Fn.(*ssa.Function); ok {
+					g = unwrap(fn)
+				}
+			}
+			if g != nil && g != f && hij(g) {
+				hit = true
+			}
+		}
+		if instHij(i) {
+			hit = true
+		}
+		if hit {
+			out = append(out, i)
+		}
+	})
+	return out
+}
+
+// runC08X3: the X-Forwarded-For write of the websocket edge and the choice of the tunnel depend on the same client header.
+func runC08X3(c *Ctx, serve *ssa.Function, reg []*ssa.Function, xffDeps map[string]bool) {
+	var tunDeps map[string]bool
+	for _, i := range c08tunnelSites(c, reg) {
 		if tunDeps == nil {
 			tunDeps = map[string]bool{}
 		}
-		for _, ft := range factsAt(i.Block()) {
-			for h := range headerDeps(c, ft.Cond, 0) {
-				tunDeps[h] = true
-			}
+		for h := range c08factDeps(i.Block(), nil) {
+			tunDeps[h] = true
 		}
-	})
+	}
 	if xffDeps == nil || tunDeps == nil {
 		c.undecided("C08.X3", "proxy|websocket decision sites", "the X-Forwarded-For write or the websocket tunnel construction was not found")
 		return
 	}
 	// the XFF guard legitimately also reads the prior X-Forwarded-For value
-	delete(xffDeps, "X-Forwarded-For")
-	delete(tunDeps, "X-Forwarded-For")
-	c.check("C08.X3", "proxy.addHeaders|websocket X-Forwarded-For decided by the same header as the tunnel", add.Pos(),
-		depsStr(xffDeps) == depsStr(tunDeps) && xffDeps["Upgrade"] && len(xffDeps) == 1,
-		"ServeHTTP chooses the websocket tunnel (which adds no X-Forwarded-For of its own) from request headers ["+depsStr(tunDeps)+"], but addHeaders decides whether to append the peer address from ["+depsStr(xffDeps)+"]: when the two can disagree (a client or earlier hop sending X-Forwarded-Proto / Forwarded), a tunnelled request reaches the upstream without the real peer in X-Forwarded-For")
+	x, t := map[string]bool{}, map[string]bool{}
+	for k := range xffDeps {
+		x[k] = true
+	}
+	for k := range tunDeps {
+		t[k] = true
+	}
+	delete(x, "X-Forwarded-For")
+	delete(t, "X-Forwarded-For")
+	c.check("C08.X3", "proxy|websocket X-Forwarded-For decided by the same header as the tunnel", serve.Pos(),
+		depsStr(x) == depsStr(t) && x["Upgrade"] && len(x) == 1,
+		"ServeHTTP chooses the websocket tunnel (which adds no X-Forwarded-For of its own) from request headers ["+depsStr(t)+"], but the headers code decides whether to append the peer address from ["+depsStr(x)+"]: when the two can disagree (a client or earlier hop sending X-Forwarded-Proto / Forwarded), a tunnelled request reaches the upstream without the real peer in X-Forwarded-For")
 }
-
-// ---- C09.B3c: a relay writes what a read returned before looking at the read's error --------------------------
